@@ -20,7 +20,7 @@ import (
 	"verif/mc/refmodel"
 )
 
-var ops = []string{"inject", "device-apply", "spec-apply", "host-renumber", "host-retype", "write-back", "inject-both", "inject-other"}
+var ops = []string{"inject", "device-apply", "spec-apply", "host-renumber", "host-retype", "write-back", "inject-both", "inject-other", "inject-two-specs"}
 
 type Case struct {
 	Version  string   `json:"declared_version"`
@@ -102,8 +102,26 @@ func eval(c Case, dir string) hx.Result {
 			raw.Devices[0].ContainerEdits = de
 			raw.Devices[1].ContainerEdits = rich("other")
 		}
+		// a second Spec file of another vendor whose spec-level and device edits collide with the
+		// first one's (same variable, same mount destination, RDT class): the order in which the
+		// two files' edits are merged is observable
+		second := &specs.Spec{Version: c.Version, Kind: "second.org/class", ContainerEdits: specs.ContainerEdits{Env: []string{"SPEC=2", "SPEC2=1"}},
+			Devices: []specs.Device{{Name: "dev2", ContainerEdits: specs.ContainerEdits{Env: []string{"DEV=2"}}}}}
+		if c.Version == "1.0.0" {
+			second.ContainerEdits = raw.ContainerEdits
+			second.ContainerEdits.DeviceNodes = nil
+			second.ContainerEdits.Env = []string{"E_second=1", "SHARED=second"}
+			second.ContainerEdits.IntelRdt = &specs.IntelRdt{ClosID: "clos-second"}
+			second.ContainerEdits.Hooks = []*specs.Hook{{HookName: "prestart", Path: "/hook/second"}}
+			second.Devices[0].ContainerEdits.Env = []string{"SHARED=dev2"}
+			second.Devices[0].ContainerEdits.Mounts = []*specs.Mount{{HostPath: "/h/dev2", ContainerPath: "/shared"}}
+		}
+		secondImage := image(second)
 		original := image(raw)
 		if err := os.WriteFile(filepath.Join(specDir, "s.json"), []byte(original), 0o644); err != nil {
+			panic(err)
+		}
+		if err := os.WriteFile(filepath.Join(specDir, "t.json"), []byte(secondImage), 0o644); err != nil {
 			panic(err)
 		}
 		cache, _ := cdi.NewCache(cdi.WithSpecDirs(specDir), cdi.WithAutoRefresh(false))
@@ -164,6 +182,40 @@ func eval(c Case, dir string) hx.Result {
 				wantEdits = r.ContainerEdits
 				appendEdits(&wantEdits, r.Devices[1].ContainerEdits)
 				check = true
+			case "inject-two-specs":
+				// both request orders, several times each: the result is the edits in request order
+				// (each file's spec-level edits before its first device), every time
+				var sec specs.Spec
+				_ = json.Unmarshal([]byte(secondImage), &sec)
+				for rep := 0; rep < 6; rep++ {
+					r := rawCopy()
+					var w specs.ContainerEdits
+					req := []string{q, "second.org/class=dev2"}
+					if rep%2 == 0 {
+						w = r.ContainerEdits
+						appendEdits(&w, r.Devices[0].ContainerEdits)
+						appendEdits(&w, sec.ContainerEdits)
+						appendEdits(&w, sec.Devices[0].ContainerEdits)
+					} else {
+						req = []string{"second.org/class=dev2", q}
+						w = sec.ContainerEdits
+						appendEdits(&w, sec.Devices[0].ContainerEdits)
+						appendEdits(&w, r.ContainerEdits)
+						appendEdits(&w, r.Devices[0].ContainerEdits)
+					}
+					g := initial()
+					_, ierr := cache.InjectDevices(g, req...)
+					want, werr := refmodel.ApplyEdits(initial(), &w, gen.Stat)
+					if (werr != nil) != (ierr != nil) {
+						return fail("injection-error-mismatch:"+op, fmt.Sprintf("model error %v, implementation error %v", werr, ierr), step, fmt.Sprint(werr), fmt.Sprint(ierr))
+					}
+					if werr == nil {
+						if ok, where := refmodel.OCIEqual(want, g); !ok {
+							return fail("two-spec-injection-differs:"+where, fmt.Sprintf("injecting %v (repetition %d) does not give the edits of the two Spec files in request order", req, rep), step, refmodel.Normalise(want), refmodel.Normalise(g))
+						}
+					}
+				}
+				injections++
 			case "device-apply":
 				applyErr = cache.GetDevice(q).ApplyEdits(got)
 				wantEdits = rawCopy().Devices[0].ContainerEdits
